@@ -108,6 +108,17 @@ Definition check_cli : rd verdict :=
     [ prop_ok 250 (in_time && exit_ok) [n; served];
       prop_ok 251 (seqs_ok && (served <=? n)) [n; served] ]).
 
+(* interrupted while some requests never complete: the first interrupt must leave the command
+   waiting for the hits in flight (their results are owed: the channel is closed only after them);
+   no result is written twice.  The second interrupt only serves to end the run: what the command
+   does on it (exit at once) is not a subject of the property and is recorded, not judged *)
+Definition check_cli2 : rd verdict :=
+  hung <- getz ;; n <- getz ;; dup_free <- getbool ;; exit_ok <- getbool ;; alive <- getbool ;; in_time <- getbool ;;
+  if hung <=? 0 then ret VDontCare else
+  ret (combine_verdicts
+    [ prop_ok 252 alive [n; hung];
+      prop_ok 251 dup_free [n; hung] ]).
+
 Definition getcase_with (mw : Z) : rd acase :=
   iw <- getz ;; d <- getz ;; fl <- getlist getz ;;
   steps <- getlist (getpair getaction getsnap) ;; fin <- getfinal ;;
@@ -115,7 +126,7 @@ Definition getcase_with (mw : Z) : rd acase :=
 
 Definition check_for (lo hi : Z) : rd verdict :=
   mw <- getz ;;
-  if mw =? 0 then check_cli else
+  if mw =? 0 then check_cli else if mw =? -1 then check_cli2 else
   cs <- getcase_with mw ;;
   let c := a_cfg cs in
   let k := fold_left (step_acc c) (a_steps cs) acc0 in
